@@ -64,7 +64,9 @@ Leave(s, newF) ==
              \* a --no-backup run does not refresh the md5 record: mixing it into a --replace chain
              \* breaks the chain like a kill in the md5 window does (outside C14's histories)
              !.tainted  = IF s.mode = "nobackup" THEN (s.tainted \/ s.runF = s.lastLeft)
-                          ELSE IF s.runF # s.lastLeft THEN FALSE ELSE s.tainted]
+                          \* user text that went into the backup starts a new chain; user text that a stale
+                          \* record happened to describe (no backup made) is still inside the window
+                          ELSE IF s.runF # s.lastLeft /\ s.needbk THEN FALSE ELSE s.tainted]
 
 Fail(s)   == [s EXCEPT !.pc = "idle", !.exit = "fail"]
 Finish(s) == [s EXCEPT !.pc = "idle", !.exit = "ok"]
